@@ -21,7 +21,10 @@
    the quotient cad / other), nothing else.
 
    Not in the model (Model/Questrade.v): xlsx decoding, f64 -> Decimal,
-   Error cells, Decimal::from_str outside the modelled grammar. *)
+   Error cells, Decimal::from_str outside the modelled grammar, and a Range of
+   width 0 (Range::default(): the real `sheet.rows()` panics there with
+   "chunk size must be non-zero", whereas the model's empty sheet is the
+   "Sheet was empty" diagnostic; see design.d/qtnopanic.md). *)
 From Coq Require Import List NArith ZArith QArith Qcanon Bool Lia.
 From ACB Require Import Base.Outcome Base.QcExtra Base.Fit Base.Arith
      Model.QText Model.Questrade Model.FxTracker.
